@@ -10,10 +10,12 @@ EXTENDS MassLedger, Json, IOUtils
 
 Rec == ndJsonDeserialize(IOEnv.TRACE)
 
-VARIABLES l, viol, stats
-tvars == <<mode, st, obs, last, pst, pobs, ops, st0, l, viol, stats>>
+VARIABLES l, viol, stats,
+          cnt       \* reported name -> number of failures (every one is counted, the first PerName are listed)
+tvars == <<mode, st, obs, last, pst, pobs, ops, st0, l, viol, stats, cnt>>
+PerName == 8
 
-TInit == /\ l = 1 /\ viol = <<>>
+TInit == /\ l = 1 /\ viol = <<>> /\ cnt = [n \in {} |-> 0]
          /\ stats = [cases |-> 0, objects |-> 0, calls |-> 0, accepted |-> 0, rejected |-> 0, loads |-> 0,
                      loads_ok |-> 0, trains |-> 0, drift |-> 0, offlattice |-> 0, harness |-> 0, panics |-> 0]
          /\ mode = "none" /\ st = <<>> /\ obs = <<>> /\ last = New /\ pst = <<>> /\ pobs = <<>>
@@ -29,8 +31,15 @@ CallKey(op) == op[1] \o "/" \o op[3] \o "/" \o (IF mode = "comp" THEN "comp" ELS
 LoadKey(m, file) == "Load//" \o (IF m = "comp" THEN "comp" ELSE UKey(file.units[1]))
 
 Names(checks) == LET F == SelectSeq(checks, LAMBDA c : ~c[2]) IN [i \in 1..Len(F) |-> F[i][1]]
-Report(key, names) == viol' = IF Len(viol) >= 2000 THEN viol
-                              ELSE viol \o [i \in 1..Len(names) |-> <<l, Rec[l].case, names[i] \o "@" \o key>>]
+(* known findings fail on thousands of records: listing every one would bury (or, with a global cap, *)
+(* cut off) an unknown failure, so each distinct name is listed PerName times and counted always     *)
+Full(names, key) == [i \in 1..Len(names) |-> names[i] \o "@" \o key]
+Was(n) == IF n \in DOMAIN cnt THEN cnt[n] ELSE 0
+Report(key, names) ==
+  LET F == Full(names, key)  S == {F[i] : i \in 1..Len(F)}
+      keep == SelectSeq(F, LAMBDA n : Was(n) < PerName)
+  IN /\ viol' = viol \o [i \in 1..Len(keep) |-> <<l, Rec[l].case, keep[i]>>]
+     /\ cnt' = [n \in DOMAIN cnt \cup S |-> Was(n) + (IF n \in S THEN 1 ELSE 0)]
 
 StateChecks == << <<"ComponentConsistent", ComponentConsistent'>>, <<"LocoConsistent", LocoConsistent'>>,
                   <<"Traction", Traction'>>, <<"ConsistMass", ConsistMass'>>, <<"ConsistForce", ConsistForce'>>,
@@ -39,13 +48,13 @@ CallChecks == StateChecks \o << <<"Atomic", Atomic'>>, <<"OptionSemantics", Opti
 Built(o) == IF mode' = "loco" /\ o.tstatic >= 0 THEN 1 ELSE 0
 (* the harness marks records holding a value that is not a multiple of 1/64: relations are not *)
 (* evaluated there (only the seeded long walks can leave the lattice)                           *)
-ReportIf(exact, key, names) == IF exact THEN Report(key, names) ELSE UNCHANGED viol
+ReportIf(exact, key, names) == IF exact THEN Report(key, names) ELSE UNCHANGED <<viol, cnt>>
 
 Begin == /\ Rec[l].ev = "begin"
          /\ stats' = [stats EXCEPT !.cases = @ + 1]
          /\ mode' = "none" /\ st' = <<>> /\ obs' = <<>> /\ last' = New /\ pst' = <<>> /\ pobs' = <<>>
          /\ ops' = <<>> /\ st0' = <<>>
-         /\ UNCHANGED viol
+         /\ UNCHANGED <<viol, cnt>>
 
 StateEv == /\ Rec[l].ev = "State"
          /\ mode' = Rec[l].mode /\ st' = Rec[l].st /\ obs' = Rec[l].obs
@@ -73,7 +82,7 @@ CallEv == /\ Rec[l].ev = "Call"
 Restore == /\ Rec[l].ev = "Restore"
            /\ st' = Rec[l].st /\ obs' = Rec[l].obs /\ last' = New /\ pst' = st' /\ pobs' = obs'
            /\ stats' = [stats EXCEPT !.harness = @ + (IF Rec[l].st = pst /\ Rec[l].obs = pobs THEN 0 ELSE 1)]
-           /\ UNCHANGED <<mode, ops, st0, viol>>
+           /\ UNCHANGED <<mode, ops, st0, viol, cnt>>
 
 LoadEv == /\ Rec[l].ev = "Load"
           /\ mode' = Rec[l].mode /\ st' = Rec[l].st /\ obs' = Rec[l].obs
@@ -92,7 +101,7 @@ Panic == /\ Rec[l].ev \in {"panic", "abort", "timeout"}
 
 End == /\ Rec[l].ev = "end"
        /\ stats' = [stats EXCEPT !.harness = @ + (IF Rec[l].result = "harness_err" THEN 1 ELSE 0)]
-       /\ UNCHANGED <<mode, st, obs, last, pst, pobs, ops, st0, viol>>
+       /\ UNCHANGED <<mode, st, obs, last, pst, pobs, ops, st0, viol, cnt>>
 
 TNext == /\ l <= Len(Rec) /\ l' = l + 1
          /\ (Begin \/ StateEv \/ CallEv \/ Restore \/ LoadEv \/ Panic \/ End)
@@ -100,6 +109,7 @@ TSpec == TInit /\ [][TNext]_tvars
 
 AtEnd == l > Len(Rec) => /\ PrintT(<<"VIOLS", ToJson(viol)>>)
                          /\ PrintT(<<"STATS", ToJson(stats)>>)
+                         /\ PrintT(<<"FAILCOUNTS", ToJson(cnt)>>)
 Accepted == IF TLCGet("stats").diameter - 1 = Len(Rec) THEN TRUE
             ELSE Print(<<"FIRST-UNMATCHED", TLCGet("stats").diameter, Rec[TLCGet("stats").diameter]>>, FALSE)
 =============================================================================
